@@ -3,7 +3,7 @@ CONSTANTS
   MB = 6
   MA = 4
   MD = 3
-  Thin = 12
+  Thin = 8
   CovThin = 6
   Slice <- MCSlice
   Emit = TRUE
